@@ -10,6 +10,6 @@ t=open("seeded_logs/%s.json"%s).read(); i=t.find("{")
 if i<0: print(s,"NO-RESULT",t[-200:].replace("\n"," "))
 else:
     d=json.loads(t[i:]); own=s.split("-")[0]
-    print(s, "confirmed" if d["confirmed"] else "UNCONFIRMED(clean=%s changed=%s tests=%s)"%(d.get("demo_clean_rc"),d.get("demo_changed_rc"),d.get("tests")), "own-check:%s"%d["detected"].get(own), "every-seed:%s"%d.get("detected_at_every_seed",{}).get(own), d["detected"])
+    print(s, "confirmed" if d["confirmed"] else "UNCONFIRMED(clean=%s changed=%s tests=%s)"%(d.get("demo_clean_rc"),d.get("demo_changed_rc"),d.get("tests")), "own-check:%s"%d["detected"].get(own), "every-seed:%s"%d.get("detected_at_every_seed",dict()).get(own), d["detected"])
 PY'
 echo; echo "== not detected by own check:"; grep -h "own-check:False\|NO-RESULT\|UNCONFIRMED" seeded_logs/*.summary 2>/dev/null
